@@ -1,2 +1,3 @@
 import KiraModel.Props.C14_a
 import KiraModel.Props.C14_b
+import KiraModel.Proofs.GenAgreeFx
